@@ -66,7 +66,8 @@ Fixpoint aff_walk (rs : list (Z * Z)) (coefs : list Q) (i : nat) (base : Q) (inc
   | [] => (base, rev incs)
   | (start, step) :: rs' =>
       let c := nth_coef coefs i in
-      let '(st, sp) := if Qeq_bool c 0 then (0%Q, 0%Q) else ((inject_Z start * c)%Q, (inject_Z step * c)%Q) in
+      (* python: start = 0.; step = 0.; if offset and <not shadowed>: start += rng.start * offset; step += rng.step * offset *)
+      let '(st, sp) := if Qeq_bool c 0 then (0%Q, 0%Q) else ((0 + inject_Z start * c)%Q, (0 + inject_Z step * c)%Q) in
       aff_walk rs' coefs (S i) (base + st)%Q (sp :: incs)
   end.
 
